@@ -19,6 +19,8 @@ import (
 	"encoding/json"
 	"fmt"
 	"os"
+	"path/filepath"
+	"sort"
 	"strings"
 
 	"fxverif/lib"
@@ -48,11 +50,11 @@ func main() {
 	rep.Notes = append(rep.Notes, fmt.Sprintf("code facts probed on the real keeper: UnbondedOracle deletes the per-oracle cursor = %v; GetLastEventNonceByOracle lifts an old cursor = %v",
 		codeFacts.UnbondDeletesCursor, codeFacts.CursorClamps))
 	nh := 60
-	if lib.Tier() == "thorough" {
+	if tier() == "thorough" {
 		nh = 300
 	}
 	if mode == "search" {
-		nh = 150
+		nh = 120
 	}
 	if v := lib.EnvInt("VERIF_N", 0); v > 0 {
 		nh = int(v)
@@ -70,6 +72,8 @@ func main() {
 		items = append(items, h.coq())
 		sc.Check(h, rep)
 	}
+	// corpus: replays of former findings; the monitors must stay silent and the recorded expectation must hold
+	items = append(items, runCorpus(rep, prop)...)
 	r := lib.NewRand(seed)
 	for i := 0; i < nh; i++ {
 		module := "eth"
@@ -129,4 +133,71 @@ func short(err error) string {
 		s = s[:140]
 	}
 	return s
+}
+
+// runCorpus replays every corpus/<prop>/*.json (VERIF_CORPUS) on a fresh chain. A monitor failure is reported like
+// any other; an unmet "expect" block is a regression of a fixed finding.
+func runCorpus(rep *lib.Report, prop string) (items []string) {
+	dir := os.Getenv("VERIF_CORPUS")
+	if dir == "" {
+		return nil
+	}
+	files, _ := filepath.Glob(filepath.Join(dir, "*.json"))
+	sort.Strings(files)
+	for _, f := range files {
+		b, err := os.ReadFile(f)
+		if err != nil {
+			continue
+		}
+		var c struct {
+			Signature string `json:"signature"`
+			Expect    *struct {
+				LastOpRejected *bool   `json:"last_op_rejected"`
+				LastObserved   *uint64 `json:"last_observed"`
+				VotesOfNonce1  []int64 `json:"votes_of_nonce_1"`
+			} `json:"expect"`
+			Replay Replay `json:"replay"`
+		}
+		if json.Unmarshal(b, &c) != nil || len(c.Replay.Ops) == 0 {
+			continue
+		}
+		h := newHist(c.Replay.ChainSeed, c.Replay.Module, "corpus-"+filepath.Base(f), rep, prop)
+		lastOK := false
+		for _, o := range c.Replay.Ops {
+			lastOK, _ = h.apply(o)
+		}
+		h.finish()
+		items = append(items, h.coq())
+		rep.Count("corpus-replays")
+		if c.Expect != nil {
+			ob := h.observe()
+			var bad []string
+			if c.Expect.LastOpRejected != nil && *c.Expect.LastOpRejected == lastOK {
+				bad = append(bad, fmt.Sprintf("last operation accepted=%v", lastOK))
+			}
+			if c.Expect.LastObserved != nil && *c.Expect.LastObserved != ob.lastObs {
+				bad = append(bad, fmt.Sprintf("last observed nonce %d", ob.lastObs))
+			}
+			if c.Expect.VotesOfNonce1 != nil {
+				for _, a := range ob.atts {
+					if a.nonce == 1 && fmt.Sprint(a.votes) != fmt.Sprint(c.Expect.VotesOfNonce1) {
+						bad = append(bad, fmt.Sprintf("votes of nonce 1 are %v", a.votes))
+					}
+				}
+			}
+			if len(bad) > 0 {
+				rep.Fail(lib.Failure{Kind: "monitor", What: "regression of a fixed finding (" + filepath.Base(f) + "): " + strings.Join(bad, "; "),
+					Sig: c.Signature + ":regression", Replay: c.Replay})
+			}
+		}
+	}
+	return items
+}
+
+// tier: the search run (after a broken proof / tie) uses quick-sized histories, only more of them
+func tier() string {
+	if os.Getenv("VERIF_MODE") == "search" {
+		return "quick"
+	}
+	return lib.Tier()
 }
